@@ -139,6 +139,10 @@ def generate(rng, tier, index):
     )
     spec["mode"] = "scene"
     T = spec["steps"]
+    # degenerate-but-valid schedules get a guaranteed share: one scene in five carries a source whose schedule has no active
+    # step at all (empty fixed list or always-off flag); it must inject nothing, at any step
+    if rng.uniform() < 0.2:
+        spec["sources"][int(rng.integers(0, len(spec["sources"])))]["switch"] = specgen.choice(rng, [{"fixed_on_time_steps": []}, {"is_always_off": True}, {"fixed_on_time_steps": []}])
     dets = []
     for i in range(int(rng.integers(1, 5))):
         d = specgen.rand_field_detector(rng, f"d{i}", spec["shape"], T, exact=False, switch=False)
